@@ -18,6 +18,10 @@ Upd == /\ More /\ Ev.op = "update" /\ Update(Ev.data, Ev.e0) /\ Counters(h') /\ 
 Ref == /\ More /\ Ev.op = "set_reference" /\ SetReference(Ev.data) /\ Counters(h')
        /\ Chk("reference size", Len(h'.ref), Ev.refn) /\ Adv
 Rst == /\ More /\ Ev.op = "reset" /\ UserReset /\ Counters(h') /\ Adv
-Next == Upd \/ Ref \/ Rst
+(* a call refused by input validation: nothing moves - except that an update refused right after a drift has already performed the pending automatic
+   reset (once: the call that follows must not perform it again) *)
+Bad == /\ More /\ Ev.op = "bad" /\ (UNCHANGED hdmvars \/ (h.st = "drift" /\ UserReset)) /\ Counters(h')
+       /\ Chk("reference size", Len(h'.ref), Ev.refn) /\ Adv
+Next == Upd \/ Ref \/ Rst \/ Bad
 Spec == Init /\ [][Next]_tvars
 =============================================================================
